@@ -401,7 +401,9 @@ Section ScopedQ.
       w_keyf w' t = (if lent then w_keyf w t else false) /\
       (forall x, x <> t -> w_keyf w' x = w_keyf w x) /\
       (* the trace: acquisition, closure-entry marker, user events, then no acquisition and no marker any more *)
-      exists w2 evR, frame (emit w1 (EMark t 1)) w2 /\ w_trace w' = evR ++ w_trace w2 /\ Forall tail_ev evR.
+      exists w2 evR,
+        run nopw t (closure m items body) w1 = ((if haspanic then OPanic else ODone VUnit), w2) /\
+        frame (emit w1 (EMark t 1)) w2 /\ w_trace w' = evR ++ w_trace w2 /\ Forall tail_ev evR.
   Proof.
     intros Q Racq Eacq Kacq Can.
     assert (NDk : NoDup (locks_of (kleaves s))) by (rewrite <- leaves_kleaves; exact ND).
@@ -455,7 +457,7 @@ Section ScopedQ.
         * intros x Hx. destruct lent; cbn [negb]; cbn; [|rewrite upd_other by exact Hx];
             rewrite (eff_keyf _ _ _ E4); cbn; apply K2.
         * destruct (run_tail nopw t _ _ _ _ (raw_unlock_tail m a) R4) as [evR [TR FR]]. exists w2, evR.
-          split; [exact Fc|]. split; [|exact FR]. destruct lent; cbn [negb]; [exact TR|rewrite trace_set_keyf; exact TR].
+          split; [exact Rc|]. split; [exact Fc|]. split; [|exact FR]. destruct lent; cbn [negb]; [exact TR|rewrite trace_set_keyf; exact TR].
       + (* closure returns: release, drop(key) *)
         destruct (run_raw_unlock t m am s w2 Q2 Ha ND H2) as [w4 [R4 E4]]. fold a in R4.
         assert (Rbody : run nopw t (acq ;; Catch (closure m items body) (op_ (OPoison p) ;; raw_unlock m a) ;; raw_unlock m a) w
@@ -474,7 +476,7 @@ Section ScopedQ.
         * intros x Hx. destruct lent; cbn [negb]; cbn; [|rewrite upd_other by exact Hx];
             rewrite (eff_keyf _ _ _ E4); apply K2.
         * destruct (run_tail nopw t _ _ _ _ (raw_unlock_tail m a) R4) as [evR [TR FR]]. exists w2, evR.
-          split; [exact Fc|]. split; [|exact FR]. destruct lent; cbn [negb]; [exact TR|rewrite trace_set_keyf; exact TR].
+          split; [exact Rc|]. split; [exact Fc|]. split; [|exact FR]. destruct lent; cbn [negb]; [exact TR|rewrite trace_set_keyf; exact TR].
     - (* lock / collection: utils::scoped_* *)
       destruct (run_raw_unlock t m am s w2 Q2 Ha ND H2) as [w4 [R4 E4]]. fold a in R4.
       assert (E : effp w w4 f0 (w_psn w)).
@@ -492,7 +494,7 @@ Section ScopedQ.
         * intros x Hx. destruct lent; cbn [negb]; cbn; [|rewrite upd_other by exact Hx];
             rewrite (eff_keyf _ _ _ E4); apply K2.
         * destruct (run_tail nopw t _ _ _ _ (raw_unlock_tail m a) R4) as [evR [TR FR]]. exists w2, evR.
-          split; [exact Fc|]. split; [|exact FR]. destruct lent; cbn [negb]; [exact TR|rewrite trace_set_keyf; exact TR].
+          split; [exact Rc|]. split; [exact Fc|]. split; [|exact FR]. destruct lent; cbn [negb]; [exact TR|rewrite trace_set_keyf; exact TR].
       + (* release happens after drop(key), on the world where the key flag is already clear *)
         assert (Rbody : run nopw t (acq ;; Catch (closure m items body) (raw_unlock m a)) w = (ODone VUnit, w2)).
         { rewrite (run_then_done _ _ _ _ _ _ _ Racq). apply (run_catch_done _ _ _ _ _ _ _ Rc). }
@@ -512,7 +514,7 @@ Section ScopedQ.
         * intros x Hx. rewrite (eff_keyf _ _ _ E5). unfold w3. destruct lent; cbn; [|rewrite upd_other by exact Hx];
             apply K2.
         * destruct (run_tail nopw t _ _ _ _ (raw_unlock_tail m a) R5) as [evR [TR FR]]. exists w2, evR.
-          split; [exact Fc|]. split; [|exact FR]. rewrite TR. unfold w3. destruct lent; reflexivity.
+          split; [exact Rc|]. split; [exact Fc|]. split; [|exact FR]. rewrite TR. unfold w3. destruct lent; reflexivity.
   Qed.
 End ScopedQ.
 
